@@ -13,8 +13,8 @@ def instances(tier, rng):
     dag = vlib.universe("dag", 4, k=3, w=3, cap=12)
     cyc = vlib.universe("cyc", 3, maxe=9, k=2, w=2, l=1, cap=6)
     cyc4 = vlib.universe("cyc", 4, maxe=6, k=2, w=2, l=1, cap=4)
-    items = [("kMinPathError", u) for u in C.spread(dag, 60 if quick else 495)] + \
-            [("kMinPathErrorCycles", u) for u in C.spread(cyc, 12 if quick else 72) + C.spread(cyc4, 40 if quick else 500)]
+    items = [("kMinPathError", u) for u in C.spread(dag, 60 if quick else 150)] + \
+            [("kMinPathErrorCycles", u) for u in C.spread(cyc, 12 if quick else 72) + C.spread(cyc4, 40 if quick else 150)]
     insts = []
     g = 0
     for cls, u0 in items:
@@ -38,7 +38,7 @@ def instances(tier, rng):
                 extra.append({"plr": [[0, 2], [3, 20]], "plf": [[1, 1], [2, 1]]})
             es = C.route_edges(rng.choice(u["proutes"]))
             extra.append({"cons": [es[:2]]})
-            for cfg in feats + rng.sample(extra, 2 if quick else len(extra)):
+            for cfg in feats + rng.sample(extra, 2 if quick else 5):
                 for kk in ("none", "w", "w+1"):
                     g += 1
                     for wt, num, den in (("int", 1, 1), ("float", 1, 1), ("float", 1, 2)) if (not quick or rng.random() < 0.3) else (("int", 1, 1),):
